@@ -40,7 +40,7 @@ func c16Gen(t *rapid.T) c16Case {
 	n := rapid.IntRange(2, hx.Pick(12, 32)).Draw(t, "goroutines")
 	c := c16Case{Procs: rapid.SampledFrom([]int{1, 2, 4, 16}).Draw(t, "procs"), Yield: rapid.Bool().Draw(t, "yield"), Rounds: hx.Pick(2, 3),
 		Cold: rapid.IntRange(0, 2).Draw(t, "cold") == 0}
-	kinds := []string{"record", "record", "record", "run", "sign", "verifysig", "dumpload", "verify", "verify", "verify", "loadkey", "startstop", "match", "subst"}
+	kinds := []string{"record", "record", "record", "run", "sign", "verifysig", "dumpload", "verify", "verify", "verify", "loadkey", "startstop", "match", "subst", "certcheck", "certcheck"}
 	// often everybody hammers the same API family
 	focus := ""
 	if rapid.Bool().Draw(t, "focus") {
@@ -64,7 +64,7 @@ func c16Gen(t *rapid.T) c16Case {
 			}
 			reps := 1
 			switch k {
-			case "sign", "verifysig", "dumpload", "loadkey", "record", "match", "subst":
+			case "sign", "verifysig", "dumpload", "loadkey", "record", "match", "subst", "certcheck":
 				reps = rapid.SampledFrom([]int{1, 1, 5, 20, 40}).Draw(t, "reps")
 			}
 			arg := rapid.IntRange(0, 7).Draw(t, "arg")
@@ -152,6 +152,21 @@ func c16World(g int) hx.World {
 		VerifierKeys: []hx.WKey{{Key: "ed25519-2"}},
 		Links:        []hx.WMetaFile{{Name: hx.LinkFileName("build", k.KeyID), Wrapper: wrapper, Meta: hx.MMeta{Link: &link}, Sigs: []hx.WSig{{Key: k.Name}}},
 			{Name: hx.LinkFileName("package", k.KeyID), Wrapper: wrapper, Meta: hx.MMeta{Link: &pkg}, Sigs: []hx.WSig{{Key: k.Name}}}}}
+}
+
+var (
+	c16CertsOnce sync.Once
+	c16CertsMap  map[string]*hx.BuiltCert
+)
+
+// c16Certs issues the certificates of the C02 PKI once per process (read-only afterwards).
+func c16Certs() map[string]*hx.BuiltCert {
+	c16CertsOnce.Do(func() {
+		if m, err := hx.BuildPKI(c02PKI()); err == nil {
+			c16CertsMap = m
+		}
+	})
+	return c16CertsMap
 }
 
 func c16Do(st *c16State, op c16Op, g, i int, mode string) string {
@@ -265,6 +280,34 @@ func c16Once(st *c16State, op c16Op, g, i int, mode string) string {
 			return "error"
 		}
 		return res(l.GetPayload(), nil)
+	case "certcheck":
+		// certificates against a step's constraints, the first of which nobody meets: some certificates are
+		// authorised (by the second constraint), some are not - whoever else is checking at the same moment
+		certs := c16Certs()
+		if certs == nil {
+			return "harness"
+		}
+		rk, ik := certs["root"].KeyObject(), certs["inter"].KeyObject()
+		lay := intoto.Layout{RootCas: map[string]intoto.Key{rk.KeyID: rk}, IntermediateCas: map[string]intoto.Key{ik.KeyID: ik}}
+		rootPool, interPool, err := intoto.LoadLayoutCertificates(lay, nil)
+		if err != nil {
+			return res(nil, err)
+		}
+		step := intoto.Step{Type: "step", CertificateConstraints: []intoto.CertificateConstraint{
+			{CommonName: "somebody-else", DNSNames: []string{"*"}, Emails: []string{"*"}, Organizations: []string{"another-company"}, Roots: []string{"*"}, URIs: []string{"*"}},
+			{CommonName: "*", DNSNames: []string{"*"}, Emails: []string{"*"}, Organizations: []string{"zeta", "acme"}, Roots: []string{"*"}, URIs: []string{"*"}}}}
+		names := []string{"leaf1", "leaf-mismatch", "leaf2", "leaf-foreign", "leaf-direct", "leaf-mismatch"}
+		var verdicts []string
+		for j := 0; j < 4; j++ {
+			n := names[(g+op.Arg+j)%len(names)]
+			cerr := step.CheckCertConstraints(certs[n].KeyObject(), lay.RootCAIDs(), rootPool, interPool)
+			want := n == "leaf1" || n == "leaf2" || n == "leaf-direct"
+			if (cerr == nil) != want {
+				return fmt.Sprintf("certificate %s: authorised=%v, the step's constraints say %v (%v)", n, cerr == nil, want, cerr)
+			}
+			verdicts = append(verdicts, fmt.Sprintf("%s=%v", n, cerr == nil))
+		}
+		return res(verdicts, nil)
 	case "loadkey":
 		// eight of ~120 distinct PEM texts (keys x private/public form x trailing blank lines) per call
 		names := hx.CheapPoolNames()
